@@ -89,6 +89,19 @@ CHECKS = {
         note="bounds: history length 3 (quick) / 4 (thorough) over the alphabets printed in the evidence; match_depth=False "
              "and `visible` not explored. " + TRUST,
         design="2/C18"),
+    "C02": dict(
+        category="exploration", engine="E1",
+        technique="exhaustive enumeration of common-fragment queries (cost <= k) x 4 dialect pairs x a complete family of small NULL-bearing databases; execution on real SQLite / DuckDB",
+        text="Every query of the SQLite/DuckDB common fragment with at most 2 (thorough 3) constructs - arithmetic in every "
+             "parenthesisation incl. division, modulo, unary minus; ||; AND/OR/NOT mixes; CASE/COALESCE/NULLIF/IFNULL/IIF/MIN-LEAST; string "
+             "functions; CAST; STRFTIME with 10 formats; every join kind; GROUP BY/HAVING/DISTINCT; set operations; subqueries; CTEs; "
+             "windows; ORDER BY x ASC/DESC x NULLS FIRST/LAST; LIMIT/OFFSET; QUALIFY, DISTINCT ON, SEMI/ANTI joins on the DuckDB side - is "
+             "run on its source engine and its transpilation on the target engine for sqlite->duckdb, duckdb->sqlite and both identity "
+             "directions, on every database with <= 1 row per table over the mentioned columns' domains plus three rich multi-row "
+             "instances; row multisets and the order of ORDER BY keys must agree.",
+        note="source-engine rejections drop the case; constructs whose engine semantics no transpiler could bridge are excluded in "
+             "vlib/grammar_q.py with the reason. " + TRUST + "; SQLite 3.40.1, DuckDB 1.5.5",
+        design="2/C02"),
     "C03": dict(
         category="model_checking", engine="E1",
         technique="rewrite-system state graph: enumerated queries x every RULES prefix and qualify+single rule; result-equivalence invariant on all small databases (SQLite leads, DuckDB decides)",
